@@ -46,9 +46,12 @@ structure Inv0c (c : LoopCfg) (L S : Nat) (w : List InstId) (pc : Pc) (gh : Gh) 
   cover : ∀ p ∈ gh.allApp, p ∈ gh.unpub ∨ p ∈ gh.inflight ∨ p ∈ gh.published
   left : ∀ x ∈ gh.startSet, x ∈ w ∨ x ∈ gh.merged ∨ x ∈ gh.gone
 
-/-- **the invariant of every schedule** -/
-def Inv0 (c : LoopCfg) (g : G) : Prop :=
-  Inv0c c g.st.env.lastTxn g.st.lastSynced g.st.waiting g.st.pc g.gh
+/-- **the invariant of every schedule** (of the event language `Ev`, which has no arming event:
+    no snapshot is overdue, `unarmed`; what holds for armed states is in `LoopQuiet.lean`,
+    `OwnGuard`, and in the `…_forced_…` theorems) -/
+structure Inv0 (c : LoopCfg) (g : G) : Prop extends
+    Inv0c c g.st.env.lastTxn g.st.lastSynced g.st.waiting g.st.pc g.gh where
+  unarmed : g.st.forceArmed = false
 
 theorem Inv0.init (c : LoopCfg) (env : Env) (b : Bucket) : Inv0 c (G.init env b) := by
   exact { sync_le := Nat.zero_le _
@@ -56,7 +59,8 @@ theorem Inv0.init (c : LoopCfg) (env : Env) (b : Bucket) : Inv0 c (G.init env b)
           pcinv := rfl
           inflight := fun _ _ => rfl
           cover := fun p hp => nomatch hp
-          left := fun p hp => nomatch hp }
+          left := fun p hp => nomatch hp
+          unarmed := rfl }
 
 /-! ## events other than `go` -/
 
@@ -64,7 +68,8 @@ theorem not_calm_app (gh : Gh) (p : Nat) : ¬ Calm (gh.app p) := fun h => Bool.n
 
 theorem Inv0.app {c : LoopCfg} {g : G} (h : Inv0 c g) (ops : List AppOp) : Inv0 c (step c g (.app ops)) := by
   obtain ⟨hpc, hS, hw, _, _, hL⟩ := appCommit_facts g.st ops
-  obtain ⟨h1, h2, h3, h4, h5, h6⟩ := h
+  obtain ⟨⟨h1, h2, h3, h4, h5, h6⟩, hu⟩ := h
+  refine ⟨?_, (appCommit_force g.st ops).trans hu⟩
   by_cases hr : recorded g.st ops = true
   · have hL' : (appCommit g.st ops).env.lastTxn = g.st.env.lastTxn + 1 := by
       unfold recorded at hr
@@ -116,13 +121,13 @@ theorem Inv0.app {c : LoopCfg} {g : G} (h : Inv0 c g) (ops : List AppOp) : Inv0 
     · exact h6
 
 theorem Inv0.list {c : LoopCfg} {g : G} (h : Inv0 c g) : Inv0 c (step c g .list) := by
-  obtain ⟨h1, h2, h3, h4, h5, h6⟩ := h
-  exact ⟨h1, h2, h3, h4, h5, h6⟩
+  obtain ⟨⟨h1, h2, h3, h4, h5, h6⟩, hu⟩ := h
+  exact ⟨⟨h1, h2, h3, h4, h5, h6⟩, hu⟩
 
 theorem Inv0.others {c : LoopCfg} {g : G} (h : Inv0 c g) (bs : List Blob) :
     Inv0 c (step c g (.others bs)) := by
-  obtain ⟨h1, h2, h3, h4, h5, h6⟩ := h
-  exact ⟨h1, h2, h3, h4, h5, h6⟩
+  obtain ⟨⟨h1, h2, h3, h4, h5, h6⟩, hu⟩ := h
+  exact ⟨⟨h1, h2, h3, h4, h5, h6⟩, hu⟩
 
 end Ls.Loop
 
@@ -143,14 +148,14 @@ theorem step_go (c : LoopCfg) (g : G) (i : In) :
   · simp only [step, go_eq]; rw [h2, h4]
 
 /-- the invariant after a `go` event, reduced to `goRaw` -/
-theorem Inv0.of_raw {c : LoopCfg} {g : G} {i : In}
+theorem Inv0.of_raw {c : LoopCfg} {g : G} {i : In} (hu : g.st.forceArmed = false)
     (h : Inv0c c (goRaw c g.bucket g.st i).1.env.lastTxn (goRaw c g.bucket g.st i).1.lastSynced
       (goRaw c g.bucket g.st i).1.waiting (goRaw c g.bucket g.st i).1.pc
       (g.gh.afterGo g.bucket g.st i (goRaw c g.bucket g.st i).1.pc (goRaw c g.bucket g.st i).1.waiting)) :
     Inv0 c (step c g (.go i)) := by
   obtain ⟨h1, _, h3⟩ := step_go c g i
   obtain ⟨r1, r2, r3, r4, _⟩ := relist_facts (goRaw c g.bucket g.st i).1 (goRaw c g.bucket g.st i).2
-  unfold Inv0
+  refine ⟨?_, step_unarmed hu (.go i)⟩
   rw [h1, h3, r1, r2, r3, r4]
   exact h
 
@@ -361,7 +366,7 @@ theorem min_le_of {L t : Nat} (h : L ≤ t) : L ≤ (if L < t then L else t) := 
   split <;> omega
 
 theorem goRaw_inv0 {c : LoopCfg} {b : Bucket} {s : St} {i : In} {gh : Gh}
-    (h : Inv0c c s.env.lastTxn s.lastSynced s.waiting s.pc gh) :
+    (h : Inv0c c s.env.lastTxn s.lastSynced s.waiting s.pc gh) (hu : s.forceArmed = false) :
     Inv0c c (goRaw c b s i).1.env.lastTxn (goRaw c b s i).1.lastSynced (goRaw c b s i).1.waiting
       (goRaw c b s i).1.pc (gh.afterGo b s i (goRaw c b s i).1.pc (goRaw c b s i).1.waiting) := by
   obtain ⟨h1, h2, h3, h4, h5, h6⟩ := h
@@ -382,12 +387,11 @@ theorem goRaw_inv0 {c : LoopCfg} {b : Bucket} {s : St} {i : In} {gh : Gh}
   | sendStored who t =>
     rw [hpc] at h3 h4
     rw [goRaw_sendStored hpc]
-    obtain ⟨f1, f2, f3, _, _, _⟩ := sendReturned_facts c
-      { s with committed := s.lastBy.foldl (fun acc p => setAssoc acc p.1 p.2) s.committed } who t
-    have f6 := sendReturned_pc c
-      { s with committed := s.lastBy.foldl (fun acc p => setAssoc acc p.1 p.2) s.committed } who t
+    obtain ⟨f1, f2, f3, _, _, _⟩ := sendReturned_facts c (stored s) who t
+    have f6 := sendReturned_pc c (stored s) who t
     simp only
     rw [f1, f2, f3]
+    show Inv0c c s.env.lastTxn t s.waiting _ _
     rw [afterGo_plain (by simp [hpc]) (by simp [hpc]) (by simp [hpc]) (by simp [hpc])
       (by rcases f6 with h | h | ⟨e, h⟩ <;> simp [h]) (by rcases f6 with h | h | ⟨e, h⟩ <;> simp [h])]
     exact ret_inv h2 h3.1 h3.2.2.2.1 (fun hro => h4 hro rfl) h5 h6 f6
@@ -456,7 +460,7 @@ theorem goRaw_inv0 {c : LoopCfg} {b : Bucket} {s : St} {i : In} {gh : Gh}
         · exact Or.inr (Or.inr h)
   | beforeInfo =>
     rw [hpc] at h3 h4
-    rw [goRaw_beforeInfo hpc, afterGo_info hpc]
+    rw [goRaw_beforeInfo_unarmed hpc hu, afterGo_info hpc]
     apply Inv0c.clearInfo
     have hAS : ∀ (hq : Calm gh → s.env.lastTxn ≤ s.lastSynced),
         Inv0c c (afterSend c s).env.lastTxn (afterSend c s).lastSynced (afterSend c s).waiting
@@ -565,7 +569,7 @@ theorem goRaw_inv0 {c : LoopCfg} {b : Bucket} {s : St} {i : In} {gh : Gh}
 /-- **`Inv0` is an invariant of every event** -/
 theorem Inv0.step {c : LoopCfg} {g : G} (h : Inv0 c g) (e : Ev) : Inv0 c (step c g e) := by
   cases e with
-  | go i => exact Inv0.of_raw (goRaw_inv0 h)
+  | go i => exact Inv0.of_raw h.unarmed (goRaw_inv0 h.toInv0c h.unarmed)
   | app ops => exact h.app ops
   | list => exact h.list
   | others bs => exact h.others bs
